@@ -1,0 +1,52 @@
+//! Verification hooks. Compiled only with `--features verif`; never used by the
+//! library unless an external harness installs a controller.
+
+use std::future::Future;
+use std::pin::Pin;
+use std::sync::{Arc, Mutex, RwLock};
+
+pub type PointFuture = Pin<Box<dyn Future<Output = ()> + Send>>;
+pub type PointController = Arc<dyn Fn(&'static str) -> PointFuture + Send + Sync>;
+pub type DrawController = Arc<dyn Fn(i64, i64) -> Option<i64> + Send + Sync>;
+pub type SyncController = Arc<dyn Fn(&'static str) + Send + Sync>;
+
+static POINT: RwLock<Option<PointController>> = RwLock::new(None);
+static DRAW: Mutex<Option<DrawController>> = Mutex::new(None);
+static SYNC: Mutex<Option<SyncController>> = Mutex::new(None);
+
+/// Install (or remove) the controller consulted at every scheduling point.
+pub fn set_point_controller(c: Option<PointController>) {
+    *POINT.write().unwrap() = c;
+}
+
+/// A scheduling point: a no-op unless a controller is installed.
+pub async fn point(name: &'static str) {
+    let c = POINT.read().unwrap().clone();
+    if let Some(c) = c {
+        c(name).await;
+    }
+}
+
+/// Install (or remove) the source of padding draws.
+pub fn set_draw_controller(c: Option<DrawController>) {
+    *DRAW.lock().unwrap() = c;
+}
+
+/// Ask the harness for a draw in `[min, max]`; `None` means "use the real RNG".
+pub fn draw(min: i64, max: i64) -> Option<i64> {
+    let c = DRAW.lock().unwrap().clone();
+    c.and_then(|c| c(min, max))
+}
+
+/// Install (or remove) the synchronous callback used between file reads.
+pub fn set_sync_controller(c: Option<SyncController>) {
+    *SYNC.lock().unwrap() = c;
+}
+
+/// A synchronous hook point: a no-op unless a controller is installed.
+pub fn sync_point(name: &'static str) {
+    let c = SYNC.lock().unwrap().clone();
+    if let Some(c) = c {
+        c(name);
+    }
+}
